@@ -1941,3 +1941,46 @@ func variadicElems(arg ssa.Value) []ssa.Value {
 	}
 	return out
 }
+
+// behindEmptyTableTest: the instruction lies on the side of a test `len(x.<field>) == 0` (or != 0) on which the table is
+// empty, and that test comes after `after` — an early exit that has nothing to sweep.
+func behindEmptyTableTest(fn *ssa.Function, in ssa.Instruction, field string, after ssa.Instruction) bool {
+	for _, b := range fn.Blocks {
+		iff, ok := b.Instrs[len(b.Instrs)-1].(*ssa.If)
+		if !ok {
+			continue
+		}
+		cmp, ok := iff.Cond.(*ssa.BinOp)
+		if !ok || (cmp.Op != token.EQL && cmp.Op != token.NEQ) {
+			continue
+		}
+		if k, isK := constInt(cmp.Y); !isK || k != 0 {
+			continue
+		}
+		lc, ok := stripConv(cmp.X).(*ssa.Call)
+		if !ok || builtinName(&lc.Call) != "len" {
+			continue
+		}
+		isTable := false
+		for _, l := range leavesOf(lc.Call.Args[0]) {
+			if l.Kind == leafFieldLoad && l.Field == field {
+				isTable = true
+			}
+		}
+		if !isTable {
+			continue
+		}
+		empty := b.Succs[0]
+		if cmp.Op == token.NEQ {
+			empty = b.Succs[1]
+		}
+		if !edgeOnly(b, empty) || !(empty == in.Block() || empty.Dominates(in.Block())) {
+			continue
+		}
+		if after != nil && !dominates(after, iff) {
+			continue
+		}
+		return true
+	}
+	return false
+}
